@@ -5,6 +5,7 @@
 #include "nodes/loop/control.h"
 #include "psc/error.h"
 #include "psc/scope/block.h"
+#include "verif_hook.h"
 
 using namespace PSC;
 
@@ -76,12 +77,18 @@ void Block::runNodeREPL(Node *node, PSC::Context &ctx) {
 
 void Block::_run(PSC::Context &ctx) {
     for (Node *node : nodes) {
+#ifdef PSEUDOENGINE2_VERIF
+        if (verif::step()) throw PSC::RuntimeError(node->getToken(), ctx, "VERIF budget exhausted: steps");
+#endif
         node->evaluate(ctx);
     }
 }
 
 void Block::_runREPL(PSC::Context &ctx) {
     for (Node *node : nodes) {
+#ifdef PSEUDOENGINE2_VERIF
+        if (verif::step()) throw PSC::RuntimeError(node->getToken(), ctx, "VERIF budget exhausted: steps");
+#endif
         runNodeREPL(node, ctx);
     }
 }
